@@ -110,6 +110,7 @@ structure S where
   log : List String := []                   -- provider call log, newest first: c<n> d<s> p<k>/P<k>
   issuedCands : List Nat := []              -- ghost: packages whose candidates were requested in this solve, newest first
                                             -- (updated exactly where `c<n>` is logged; the driver compares the two)
+  issuedDeps : List Nat := []               -- ghost: solvables whose dependencies were requested in this solve, newest first
   glog : List GEv := []                     -- ghost: structured twin of `log`, newest first (updated exactly where `log` is)
   polls : Nat := 0
   cancelAt : Option Nat := none             -- signal up at this poll number
@@ -375,7 +376,8 @@ def getDeps (U : Universe) (sv : Nat) : M Deps := do
   let s ← get
   if !s.fetchedDeps.contains sv then
     pollCancel
-    modify fun s => { s with fetchedDeps := sv :: s.fetchedDeps, log := s!"d{sv}" :: s.log, glog := .call false sv :: s.glog }
+    modify fun s => { s with fetchedDeps := sv :: s.fetchedDeps, log := s!"d{sv}" :: s.log, glog := .call false sv :: s.glog,
+                             issuedDeps := sv :: s.issuedDeps }
     requestStarted
   pure (U.deps sv)
 
